@@ -268,7 +268,7 @@ def items(tier: str, seed: int) -> List[Dict[str, Any]]:
     out: List[Dict[str, Any]] = []
     quick = tier == "quick"
     fam = skeletons.gen(4, 3, limit=16 if quick else 300, seed=seed + 1)
-    cur = list(skeletons.CURATED.items())
+    cur = [(k, v) for k, v in skeletons.CURATED.items() if not (quick and k == "CUR17")]   # CUR17 (20 nodes): thorough tier only here; C11 runs it in both tiers
     for sid, spec in cur:
         n = base._count_nodes(spec)
         for t in range(n):
